@@ -531,6 +531,38 @@ def crafted_case(libs, case, st):
             sig = buf(b"\x5a" * 64)
             if L.ecdsa_adaptor_decrypt(L.ctx, sig, b32(5), a) != 0:
                 st.fail("adaptor_decrypt accepted an adaptor signature with r = 0", {"cfg": L.config, "adaptor": hx(a)})
+            # ENCRYPT side of the same boundary: with the constant nonce k and this encryption key Y = k^-1 * R the signer's own
+            # R = k*Y has X == n, i.e. r = 0: encryption must refuse and zero its output, for every signing key
+            mode = ("const", b32(k), b32(9))
+            for xk in (1, 77):
+                expE = A.encrypt(b32(xk), Y, b32(m), mode_fn(mode), C, [])
+                ret, out, cb, _, _ = do_encrypt(L, L.ctx, xk, pubkey_from_point(L, Y), b32(m), mode)
+                st.calls += 1
+                st.count("encrypt-r=0-%s" % ("model-refuses" if expE is None else "model-accepts"))
+                if (ret == 1) != (expE is not None) or (expE is None and not is_zero(out)) or (expE is not None and out != expE):
+                    st.fail("encrypt with a nonce for which R.x mod n == 0: ret=%d, model %s" % (ret, "refuses (all-zero output)" if expE is None else "accepts"),
+                            {"cfg": L.config, "signer": hex(xk), "k": hex(k), "out": hx(out)[:60]})
+        # a signer key chosen so that m*G + r*X is the point at infinity for an HONEST adaptor signature of another key: the derived
+        # R' is infinity, which must be rejected (never compared / serialised as a point)
+        y2, x2 = 0x1234567, 0x89abcd
+        Y2 = C.mulG(y2)
+        hon = A.encrypt(b32(x2), Y2, b32(m), A.default_noncefn(None), C, [])
+        if hon is not None:
+            dec = A.decode(C, hon) if hasattr(A, "decode") else None
+            Rh = C.parse_pubkey(hon[:33])
+            r_ = Rh[0] % n if Rh else 0
+            if r_:
+                Xinf = C.mul((-m * pow(r_, -1, n)) % n, C.G)
+                for L in libs:
+                    okm, why = A.verify(hon, Xinf, b32(m), Y2)
+                    got = L.ecdsa_adaptor_verify(L.ctx, hon, pubkey_from_point(L, Xinf), b32(m), pubkey_from_point(L, Y2))
+                    st.calls += 1
+                    st.count("derived-R-at-infinity")
+                    if (got == 1) != okm:
+                        st.fail("adaptor_verify=%d for a public key with m*G + r*X = infinity; model: %s" % (got, why), {"cfg": L.config, "adaptor": hx(hon)})
+                    if L.illegal or L.errors:
+                        st.fail("callback fired on legal input", {"cfg": L.config})
+                        L.cb_reset()
             if L.illegal or L.errors:
                 st.fail("callback fired on legal input", {"cfg": L.config})
                 L.cb_reset()
